@@ -139,4 +139,40 @@ def sweep(ctx, n):
                       "desc": f"obj.polarization != magpylib.mu_0 * obj.magnetization (relative {attr_bad[1]:.2e}): the setters convert with the literal 4*pi*1e-7",
                       "replay": {"class": attr_bad[0], "relative_difference": attr_bad[1],
                                  "reproduce": "c = magpylib.magnet.Cuboid(polarization=(0,0,1)); c.polarization[2] - magpylib.mu_0*c.magnetization[2]"}})
+    # assignments that end in an exception (rejected values; warnings escalated to errors, as under `python -W error`):
+    # afterwards polarization and magnetization must still describe the same excitation, and getJ/getM must follow them
+    import warnings
+    cand = [nps.uniform(-1, 1, 3) * 1e-4, nps.uniform(-1, 1, 3) * 500.0, nps.uniform(-1, 1, 3), nps.uniform(-1e6, 1e6, 3), (1, 2), "x", None, np.nan * np.ones(3), (1, 2, 3, 4)]
+    for cls in MAGNETS:
+        s = make(cls, nps)
+        ip = interior_points(cls, s, nps, 1)
+        for _ in range(8):
+            attr, val = rng.choice(["polarization", "magnetization"]), rng.choice(cand)
+            with warnings.catch_warnings():
+                warnings.simplefilter(rng.choice(["error", "ignore"]))
+                try:
+                    setattr(s, attr, val)
+                    outcome = "ok"
+                except Exception as e:  # noqa: BLE001
+                    outcome = type(e).__name__
+            done += 1
+            P, Mg = s.polarization, s.magnetization
+            if (P is None) != (Mg is None):
+                consistent = False
+            elif P is None:
+                consistent = True
+            else:
+                # 1e-8: the setters convert with the literal 4*pi*1e-7 (4.5e-10 off the exported mu_0) — that is the
+                # separately recorded finding mu0-literal:BaseMagnet-setters, not this check's business
+                consistent = bool(np.allclose(P, mu_0 * np.asarray(Mg), rtol=1e-8, atol=0, equal_nan=True))
+            if consistent and P is not None and ip is not None and np.all(np.isfinite(P)):
+                with warnings.catch_warnings():
+                    warnings.simplefilter("ignore")
+                    Jm, Mm = magpy.getJ(s, ip).reshape(-1, 3)[0], magpy.getM(s, ip).reshape(-1, 3)[0]
+                consistent = bool(np.allclose(Jm, P, rtol=1e-12, atol=0) and np.allclose(Mm, Mg, rtol=1e-8, atol=0))
+            if not consistent:
+                fails.append({"key": f"excitation-pair-inconsistent:{attr}:{'raised' if outcome != 'ok' else 'ok'}",
+                              "desc": f"after `{attr} = {val!r}` ({outcome}) polarization={P!r} and magnetization={Mg!r} (or getJ/getM inside the body) no longer describe the same excitation",
+                              "replay": {"class": cls, "attribute": attr, "value": repr(val), "outcome": outcome, "polarization": repr(P), "magnetization": repr(Mg)}})
+                break
     return fails, {"c02_rows": done, "c02_per_class": per}
